@@ -44,7 +44,12 @@ def task_builder_defaults(job):
     return c16.task_builder_defaults(job)
 
 
-TASKS = {"builder_defaults": task_builder_defaults, "inplace_cases": task_inplace_cases, "verify_cases": task_verify_cases, "canon_cases": task_canon_cases, "calls_behaviours": task_calls_behaviours}
+def task_builder_clock(job):
+    from .props import c16
+    return c16.task_builder_clock(job)
+
+
+TASKS = {"builder_clock": task_builder_clock, "builder_defaults": task_builder_defaults, "inplace_cases": task_inplace_cases, "verify_cases": task_verify_cases, "canon_cases": task_canon_cases, "calls_behaviours": task_calls_behaviours}
 
 
 def main():
